@@ -183,3 +183,9 @@ let run (args : (string * string) list) : string =
     end;
     Buffer.contents res
   end
+
+(* "essbig": schedule probe on a graph too large for the list-based checker; the verdict was
+   computed by the harness from the construction of the graph - an unproved probe that is only
+   passed through *)
+let run_big (args : (string * string) list) : string =
+  " big=" ^ (Conv.get args "verdict")
